@@ -33,7 +33,7 @@ pub fn exec(sc: &Scenario, st: &mut Stats) -> Option<Violation> {
     let spec = sc.nodes[0];
     let kind = spec.kind;
     let mut node = build_spec(&spec);
-    let mut twin = build_spec(&spec);
+    let mut twin = crate::sut::build_ref(&spec);
     let mut scale = Scale::new(spec.params.sum_periods(kind).max(spec.params.window(kind)));
     let mut count = 0u64;
     let mut was_reset = false;
@@ -96,7 +96,7 @@ pub fn exec(sc: &Scenario, st: &mut Stats) -> Option<Violation> {
             Op::Reset { .. } => {
                 let before = (node.display(), node.period(), node.multiplier().map(f64::to_bits));
                 on(Side::Subject, || node.reset());
-                twin = on(Side::Reference, || build_spec(&spec));
+                twin = on(Side::Reference, || crate::sut::build_ref(&spec));
                 let after = (node.display(), node.period(), node.multiplier().map(f64::to_bits));
                 let fresh = (twin.display(), twin.period(), twin.multiplier().map(f64::to_bits));
                 if before != after || after != fresh {
@@ -317,7 +317,7 @@ fn sweep_specs() -> Vec<NodeSpec> {
         };
         for m in modes {
             for &(a, b, c) in &tuples {
-                v.push(NodeSpec { kind: k, params: Params::new(a, b, c, 2.0), mode: m });
+                v.push(NodeSpec { kind: k, params: Params::new(a, b, c, 2.0), mode: m, dflt: false });
             }
         }
     }
